@@ -91,6 +91,10 @@ def run_params(case):
             if got != want:
                 out.fail('param:initial-value', '%s.%s cached %r device %r' % (p['group'], p['name'], got, want))
         s.sleep(0.2)
+        if case.get('prefix_after_connect') is not None:
+            # systematic single preemptions: the k-th scheduling decision from here on goes to another thread
+            s.prefix = list(case['prefix_after_connect'])
+            s.ci = 0
         t0 = s.now
         n_tx0, n_rx0, n_log0 = len(link.tx), len(link.rx_log), len(dev.param_log)
         put0 = len(cf.param.param_updater.request_queue.put_log)
@@ -531,5 +535,24 @@ def param_case(draw):
             'resending': draw(st.sampled_from([False, False, False, True]))}
 
 
+def single_preemption_cases(tier):
+    """replies without latency, fixed two-thread scripts, exactly one forced thread switch at the k-th scheduling decision"""
+    scripts = [
+        [[{'op': 'set', 'p': 0, 'gap': 0, 'same': False, 'value': 3, 'unknown': False}, {'op': 'state', 'p': 0, 'gap': 0, 'same': False, 'shared': True},
+          {'op': 'read', 'p': 1, 'gap': 0, 'same': False}],
+         [{'op': 'default', 'p': 0, 'gap': 0, 'same': False, 'shared': True}, {'op': 'set', 'p': 1, 'gap': 0, 'same': False, 'value': 4, 'unknown': False},
+          {'op': 'store', 'p': 0, 'gap': 0, 'same': False, 'shared': True}]],
+        [[{'op': 'set', 'p': 2, 'gap': 0, 'same': False, 'value': 1, 'unknown': False}, {'op': 'set', 'p': 2, 'gap': 0, 'same': True, 'value': 2, 'unknown': False},
+          {'op': 'read', 'p': 2, 'gap': 0, 'same': True}],
+         [{'op': 'read', 'p': 3, 'gap': 0, 'same': False, 'notify': 7}, {'op': 'clear', 'p': 0, 'gap': 0, 'same': False}]],
+    ]
+    for si, threads in enumerate(scripts):
+        for k in range(0, 60 if tier == 'quick' else 200):
+            for other in (1, 2):
+                yield {'version': 10, 'tseed': si, 'threads': threads, 'notifications': [], 'delays': [0.0], 'resending': False,
+                       'schedule': {'prefix': [], 'seed': 0, 'rate': 0.0}, 'prefix_after_connect': [0] * k + [other]}
+
+
 def subchecks(tier):
-    return [Sub('scripts', run_params, strategy=param_case(), examples={'quick': 360, 'thorough': 12000})]
+    return [Sub('scripts', run_params, strategy=param_case(), examples={'quick': 360, 'thorough': 12000}),
+            Sub('single-preemptions', run_params, cases=single_preemption_cases, distinct_by_construction=True)]
